@@ -128,7 +128,7 @@ func cmdVerify(args []string) {
 	}
 	if *dump != "" {
 		for _, o := range all {
-			if o.Name == *dump {
+			if o.Name == *dump || strings.HasSuffix(o.Name, *dump) {
 				q, _ := o.Unit.BuildQuery(o, true)
 				fmt.Println(q)
 			}
